@@ -14,6 +14,11 @@ for pid in open('/verif/bin/registered.txt').read().split():
     if not os.path.isdir(W): continue
     p = props[pid]
     tk = '\n'.join('  - ' + t for t in taken.get(pid, [])) or '  (none)'
+    EXTRA = '' if rnd != '3' else ('* Prefer changes whose effect depends on HISTORY or TIMING rather than on a single input: state that survives from an earlier\n'
+        '  operation (a stale flag, counter, pointer, cached length, buffer content), an error/early-return path taken earlier that leaves\n'
+        '  something half-updated, a particular order of two legal calls, a resource reused after release, a boundary reached only after\n'
+        '  several steps (wrap-around, full buffer, n-th repetition), or two cooperating edits in different functions that each look\n'
+        '  harmless.  Avoid one-line changes of a constant or comparison operator that a single well-chosen input exposes.\n')
     open(W + '/ASSIGNMENT.md', 'w').write(f"""# Assignment: break property {pid} of libzvbi with realistic source changes
 
 You work ONLY in the git worktree `{W}` (a scratch copy of the zapping-vbi/zvbi repository: libzvbi, a C library
@@ -39,7 +44,7 @@ or `/verif` and do not read anything under `/verif`.  There is no network.
 * does NOT show up in ordinary use at once: it must need something specific to manifest — a particular
   interleaving, a crash/fault/transmission error at a particular point, a multi-step sequence of operations, an
   unusual-but-legal input, or two cooperating sites that each look fine alone.  Explain exactly what it needs.
-* The {len(names)} changes must differ from one another in mechanism and, if the property has several clauses, in the
+{EXTRA}* The {len(names)} changes must differ from one another in mechanism and, if the property has several clauses, in the
   clause they break.  The following mechanisms were already used by someone else — pick different ones:
 {tk}
 
